@@ -418,8 +418,15 @@ Section Confined.
         eapply setattr_size_good; [exact (proj1 G2) | exact Hh2 | exact H3]. }
       assert (G : good s s3) by (eapply good_trans; [exact G1 | eapply good_trans; [exact G2 | exact G3]]).
       destruct r3 as [u3|e]; [|inv4 H; split; [exact G | exact I]].
-      destruct (do_getattr cf s3 inode handle) as [a|e] eqn:Hg; inv4 H; (split; [exact G|]); [|exact I].
-      cbn. apply (do_getattr_ok _ _ _ _ _ (proj1 G) Hg).
+      match type of H with context [let '(r4, s4) := ?x in _] => destruct x as [r4 s4] eqn:H4 end.
+      assert (G4 : good s3 s4).
+      { destruct (has valid FATTR_ATIME || has valid FATTR_MTIME); [|inversion H4; subst; exact (good_refl _ (proj1 G))].
+        match type of H4 with context [sys_utimens ?h ?i ?a ?m] => destruct (sys_utimens h i a m) as [r0 h'] eqn:Hu end.
+        inversion H4; subst. apply good_with_host; [exact (proj1 G)|]. eapply sys_utimens_conf; [apply G | exact Hu]. }
+      assert (G' : good s s4) by (eapply good_trans; eassumption).
+      destruct r4 as [u4|e]; [|inv4 H; split; [exact G' | exact I]].
+      destruct (do_getattr cf s4 inode handle) as [a|e] eqn:Hg; inv4 H; (split; [exact G'|]); [|exact I].
+      cbn. apply (do_getattr_ok _ _ _ _ _ (proj1 G') Hg).
     - (* mkdir *)
       destruct (validate cf n); [inv4 H; done_refl HI|].
       match type of H with context [create_then_lookup ?a ?b ?c ?d ?e ?f] => destruct (create_then_lookup a b c d e f) as [[rp0 io0] s0] eqn:Hc end.
@@ -573,6 +580,7 @@ Section Confined.
     - (* fallocate *)
       destruct (get_data cf (c_no_open cf) s handle inode O_RDWR) as [[[hid hd]|e] s1] eqn:Hgd;
         destruct (get_data_good _ _ _ _ _ _ _ _ HI Hgd) as [G1 Hh]; [|inv4 H; split; [exact G1 | exact I]].
+      destruct (l =? 0); [inv4 H; split; [exact G1 | exact I]|].
       destruct (negb (acc_w (hd_acc hd))); [inv4 H; split; [exact G1 | exact I]|].
       destruct (sys_fallocate (p_creds s1) (p_host s1) (hd_host hd) mode off l) as [r h'] eqn:Hc.
       assert (G2 : good s1 (with_host s1 h')) by (apply good_with_host; [exact (proj1 G1) | eapply sys_fallocate_conf; [apply G1 | apply (Hh _ _ eq_refl) | exact Hc]]).
